@@ -293,6 +293,8 @@ structure TickIn where
   roots : List View             -- resolved `cgroup` argument
   freshDl : Option Nat          -- the deadline a chain fired on this tick gets: reading at fire + prekill_hook_timeout
                                 --   (`Ruleset::runOnceImpl`; `none` = no ActionContext deadline)
+  rank : List View → List View  -- `rankForKilling` on this tick (ties may be broken differently on every tick:
+                                --   `std::sort` is unstable and the roots come out of an `unordered_set`)
 
 structure TickOut where
   dl : Option Nat               -- the deadline in the ActionContext this `run()` saw
@@ -308,14 +310,14 @@ def curDl (saved : Option (Option Nat)) (ti : TickIn) : Option Nat :=
 
 /-- successive `run()` calls of one plugin instance.  `saved` = the deadline of the ActionContext the ruleset keeps while
     the action is ASYNC_PAUSED (`active_action_chain_state_`, C06): a resumed action sees the context of the firing tick. -/
-def runHistory (cfg : HCfg) (rank : List View → List View) :
+def runHistory (cfg : HCfg) :
     Option Pending → Option (Option Nat) → List TickIn → HEnv → List TickOut
   | _, _, [], _ => []
   | st, saved, ti :: rest, env =>
     let dl := curDl saved ti
-    let r := runTick cfg rank dl ti.top ti.roots st env
+    let r := runTick cfg ti.rank dl ti.top ti.roots st env
     { dl := dl, evs := r.evs, ret := r.val.2, st := r.val.1 } ::
-      runHistory cfg rank r.val.1 (if r.val.2 = .async then some dl else none) rest r.env
+      runHistory cfg r.val.1 (if r.val.2 = .async then some dl else none) rest r.env
 
 /-- the whole observable history -/
 def flat (outs : List TickOut) : List HEv := outs.flatMap (·.evs)
